@@ -4,7 +4,7 @@ from vlib import Rng
 
 RULE = ("family fs: FilesystemHandler over a scratch tree with canaries outside the root (SECRET in the parent chain, sibling root2/, "
         "name-extension sibling rootX/); request paths over the segment alphabet {name, '.', '..', '', encoded dots / slashes, "
-        "absolute prefixes} up to 4 segments exhaustively (6 in thorough, sampled) x 4 document-root spellings (plain, trailing slash, "
+        "absolute prefixes incl. a percent-encoded leading slash} up to 4 segments exhaustively (6 in thorough, sampled) x 4 document-root spellings (plain, trailing slash, "
         "dot segments, relative to cwd); non-trivial = distinct case")
 ASSUMPTIONS = ["no symbolic links (outside the property's quantifier)", "request paths are ASCII",
                "the path is what the server hands to the handler (already decoded once); the handler decodes once more"]
@@ -16,6 +16,9 @@ TREE = [[b"SECRET", 0, b"top-secret"], [b"p/SECRET2", 0, b"s2"], [b"p/q/root/a.t
 ROOTS = [b"@BASE@/p/q/root", b"@BASE@/p/q/root/", b"@BASE@/p/./q/root2/../root", b"@CWD@/p/q/root"]
 SEGS = [b"a.txt", b"sub", b"deep", b"b.txt", b".", b"..", b"", b"%2e%2e", b"%2e", b"root", b"root2", b"rootX", b"q", b"SECRET", b"x", b"nosuch", b"..%2f..", b"%2E%2E"]
 ABS = [b"@BASE@/p/q/root/", b"@BASE@/p/q/", b"@BASE@/", b"@BASE@/p/q/root2/", b"@BASE@/p/q/rootX/", b"/hx-nonexistent/", b"@BASE@/p/q/root/../"]
+# absolute only after the handler's own decoding: the leading slash is percent-encoded
+ABS += [b"%2F" + a for a in ABS[:5]] + [b"%2f@BASE@/p/", b"%2F%2F@BASE@/", b"%2F@BASE@%2Fp%2F"]
+ABS_TARGETS = [b"SECRET", b"p/SECRET2", b"p/q/root2/x", b"p/q/rootX/y", b"p/q/roo", b"p/q/root/a.txt", b"p/q/root/sub/b.txt"]
 
 
 def cases(tier, seed, ctx=None):
@@ -39,7 +42,12 @@ def cases(tier, seed, ctx=None):
     for a in ABS:
         paths.add(a)
         paths.add(a[:-1])
+    # every canary and some inside files by absolute spellings (plain, encoded leading slash, doubled slash)
+    for t in ABS_TARGETS:
+        for pre in (b"@BASE@/", b"%2F@BASE@/", b"%2f@BASE@/", b"/@BASE@/", b"%2F%2F@BASE@/", b"%252F@BASE@/"):
+            paths.add(pre + t)
+            paths.add(pre + t.replace(b"/", b"%2F"))
     for p in sorted(paths):
         root = ROOTS[rng.below(len(ROOTS))] if len(p) > 8 else None
         for r in ([root] if root else ROOTS):
-            yield ("fs", [TREE, r, p, [], ver, [7]], "abs" if p.startswith(b"@BASE@") or p.startswith(b"/") else "rel")
+            yield ("fs", [TREE, r, p, [], ver, [7]], "abs" if b"@BASE@" in p or p.startswith(b"/") else "rel")
